@@ -131,6 +131,8 @@ def check(ctx):
             "let s = 150; res /s on get -> <status=s, {}> :: <status=599, {}> :: <status=100, {}>;\n",
             "res /v/{ 'id num }/w/{ 'name str }?{ 'q str } on get -> <>;\n",
             "let u = /base/{ 'k int }; res (concat u (/tail/{ 'j str })) on put -> <>;\n",
+            "let self_link = /nodes/{ 'id! int } on get -> <{ 'self self_link }>;\nlet @node = { 'name str, 'parent self_link };\nres self_link;\nres /roots on get -> <[@node]>;\n",
+            "let @a = { 'p (rec x num) };\nlet @b = { 'q @a, 'r (rec y uri) };\nres /r on get -> <@b> :: <status=404, (rec z bool)>;\n",
         ]
         for s in extra:
             ps.append({"mods": {"file:///w/main.oal": s}, "main": "file:///w/main.oal", "features": ["corpus"], "ast": None})
